@@ -74,8 +74,10 @@ def interesting(
     if temp_prefix is None:
         outputs = (run_info.out, run_info.err)
         for data in outputs:
-            if (args.regex and re.match(args.search, data, flags=re.MULTILINE)) or (
-                args.search.encode("utf-8") in data
+            if (
+                re.search(args.search.encode(), data, flags=re.MULTILINE)
+                if args.regex
+                else args.search.encode() in data
             ):
                 LOG.info("[Interesting] Match detected!")
                 return True
